@@ -11,7 +11,9 @@ Record obs01 := mkObs01 {
   ob_vendors : list string; ob_classes : list string;
   ob_vspecs : list (string * list (string * nat));            (* GetVendorSpecs(v): path, priority, in order *)
   ob_errkeys : list string;                                   (* keys of GetErrors() that are Spec files *)
-  ob_referr : bool }.                                         (* Refresh() returned an error *)
+  ob_referr : bool;                                           (* Refresh() returned an error *)
+  ob_auto : bool;                                             (* the cache is in automatic refresh mode now *)
+  ob_direrrs : list string }.                                 (* keys of GetSpecDirErrors() *)
 Inductive case01 := Case01 (fs : fsview) (o : obs01).
 
 Definition fingerprint (d : device) : string := hd "" (e_env (d_edits d)).
@@ -22,6 +24,11 @@ Definition probe_eqb := option_eqb (fun a b : string * nat * string =>
 Definition pn_eqb (a b : string * nat) : bool := String.eqb (fst a) (fst b) && Nat.eqb (snd a) (snd b).
 Definition proj_files (l : list lfile) : list (string * nat) := map (fun f => (lf_path f, lf_prio f)) l.
 
+(* directory-level entries: in automatic refresh mode exactly the configured directories that cannot be watched because they
+   are missing (no other directory fault is generated in that mode); none in manual mode, whatever the cache went through *)
+Definition expected_direrrs (fs : fsview) (auto : bool) : list string :=
+  if auto then sort_strings (dedup_s (map fst (filter (fun d => match snd d with DMissing => true | _ => false end) fs))) else [].
+
 (* the model's answers equal the observed ones *)
 Definition corr01 (c : case01) : bool :=
   match c with
@@ -31,7 +38,8 @@ Definition corr01 (c : case01) : bool :=
       forallb (fun p => probe_eqb (proj_dev (get_device ch (fst p))) (snd p)) (ob_probes o) &&
       ls_eqb (list_vendors ch) (ob_vendors o) && ls_eqb (list_classes ch) (ob_classes o) &&
       forallb (fun vs => list_eqb pn_eqb (proj_files (vendor_specs (c_specs ch) (fst vs))) (snd vs)) (ob_vspecs o) &&
-      ls_eqb (error_keys ch) (ob_errkeys o) && Bool.eqb (refresh_fails ch) (ob_referr o)
+      ls_eqb (error_keys ch) (ob_errkeys o) && Bool.eqb (refresh_fails ch) (ob_referr o) &&
+      ls_eqb (expected_direrrs fs (ob_auto o)) (ob_direrrs o)
   end.
 
 (* sort a list of (path, prio) for the order-insensitive comparison of the oracle *)
@@ -59,7 +67,9 @@ Definition oracle01 (c : case01) : bool :=
       ls_eqb (ob_vendors o) (sort_strings (map fst (ob_vspecs o))) &&
       (* C13: every failing file, and every file in a same-priority conflict, has an error entry; nothing else has *)
       ls_eqb (ob_errkeys o) (expected_error_keys files) &&
-      Bool.eqb (ob_referr o) (match expected_error_keys files with [] => false | _ => true end)
+      Bool.eqb (ob_referr o) (match expected_error_keys files with [] => false | _ => true end) &&
+      (* an entry for a directory is there exactly while its cause is (C13: it disappears at the first refresh afterwards) *)
+      ls_eqb (ob_direrrs o) (expected_direrrs fs (ob_auto o))
   end.
 
 Definition judge01 (cases : list case01) : list nat * list nat :=
